@@ -126,6 +126,7 @@ func checkC10(c *Ctx) {
 	c.Assume("events are attributed to a step by a following request/response on the same connection (hc writes notifications synchronously from the goroutine that changed the value)")
 	c10Wire(c)
 	c10DuringResponse(c)
+	c10StalledSubscriber(c)
 	duplexStress(c, "C10") // events and responses written to one connection at the same time must stay decryptable: a garbled event is a lost event
 	n := c.Pick(32, 1500)
 	type res struct{ line, impl string }
@@ -639,4 +640,119 @@ func c10DuringResponse(c *Ctx) {
 	close(stop)
 	c.Extra("during_response_local_changes", atomic.LoadInt64(&toggles))
 	c.Count(id, true, "stream:during-response")
+}
+
+// c10StalledSubscriber: one subscribed controller keeps its connection open but stops reading (asleep, out of range). The
+// others are subscribed too and keep reading. Every change must still reach them, the application's SetValue must return,
+// and another controller's request must still be answered. (The fan-out writes to each connection synchronously and
+// without a limit: once the stalled controller's socket buffers are full it blocks for ever — known finding F45.)
+func c10StalledSubscriber(c *Ctx) {
+	id := "stalled-subscriber#0"
+	if c.Skip(id) {
+		return
+	}
+	r := c.CaseRng("stalled-subscriber", 0)
+	acc0 := accessory.New(accessory.Info{Name: "Stall"}, accessory.TypeOther)
+	svc := service.New("F0AA")
+	text := characteristic.NewString("F5AA")
+	text.Format = characteristic.FormatString
+	text.Perms = []string{characteristic.PermRead, characteristic.PermEvents}
+	text.SetValue("-")
+	svc.AddCharacteristic(text.Characteristic)
+	acc0.AddService(svc)
+	acc, err := startE2E(c.ScratchDir(), "00102003", false, acc0)
+	if err != nil {
+		c.Violate("transport does not start", id, nil, "started", err.Error())
+		return
+	}
+	defer acc.Stop()
+	ident := newRefIdentity(r, "ctrl-stall")
+	setup, _ := acc.Dial()
+	sr := refPairSetup(r, setup.Post(), "001-02-003", ident)
+	setup.Close()
+	if sr.ErrAt != "" {
+		c.Violate("reference controller cannot pair", id, nil, "paired", sr.ErrAt)
+		return
+	}
+	sub := fmt.Sprintf(`{"characteristics":[{"aid":%d,"iid":%d,"ev":true}]}`, acc0.ID, text.ID)
+	connect := func(small bool) *refClient {
+		cl, err := acc.Dial()
+		if err != nil {
+			return nil
+		}
+		if tc, ok := cl.conn.(*net.TCPConn); ok && small {
+			tc.SetReadBuffer(4096)
+		}
+		vr := refPairVerify(r, cl.Post(), ident, sr.AccLTPK)
+		if vr.Shared == nil {
+			cl.Close()
+			return nil
+		}
+		cl.Upgrade(vr.Shared)
+		cl.timeout = 3 * time.Second
+		if m, err := cl.Do("PUT", "/characteristics", "application/hap+json", []byte(sub)); err != nil || m.Status != 204 {
+			cl.Close()
+			return nil
+		}
+		return cl
+	}
+	stalled, listener, asker := connect(true), connect(false), connect(false)
+	if stalled == nil || listener == nil || asker == nil {
+		c.Violate("verified reference controllers cannot subscribe", id, nil, "3 subscribed connections", "failed")
+		return
+	}
+	defer stalled.Close()
+	defer listener.Close()
+	defer asker.Close()
+	// the listener reads everything that arrives; the stalled one reads nothing from now on
+	var received int64
+	go func() {
+		for {
+			m, err := listener.next(20 * time.Second)
+			if err != nil {
+				return
+			}
+			if m != nil && m.Event {
+				atomic.AddInt64(&received, 1)
+			}
+		}
+	}()
+	changes := c.Pick(300, 1200)
+	var done int64
+	finished := make(chan struct{})
+	go func() {
+		defer close(finished)
+		for k := 0; k < changes; k++ {
+			text.SetValue(strings.Repeat(string(rune('a'+k%26)), 30000))
+			atomic.StoreInt64(&done, int64(k+1))
+		}
+	}()
+	in := map[string]interface{}{"subscribed_connections": 3, "one_of_them_stops_reading": true, "changes": changes, "event_bytes_each": 30000}
+	// wait until all changes are made — or none has been made for two seconds
+	last, lastAt := int64(-1), time.Now()
+wait:
+	for {
+		select {
+		case <-finished:
+			break wait
+		case <-time.After(100 * time.Millisecond):
+		}
+		if d := atomic.LoadInt64(&done); d != last {
+			last, lastAt = d, time.Now()
+		} else if time.Since(lastAt) > 2*time.Second {
+			break
+		}
+	}
+	made := atomic.LoadInt64(&done)
+	time.Sleep(300 * time.Millisecond)
+	got := atomic.LoadInt64(&received)
+	// a request of the third controller while the fan-out is (possibly) stuck
+	asker.timeout = 2 * time.Second
+	_, aerr := asker.Do("GET", fmt.Sprintf("/characteristics?id=%d.%d", acc0.ID, text.ID), "", nil)
+	blocked := made < int64(changes)
+	if blocked || got < made {
+		c.Violate("a subscribed controller that stops reading halts the notifications of all others (and the application's SetValue)", id, in,
+			fmt.Sprintf("%d changes made, each notified to the reading subscriber", changes), fmt.Sprintf("SetValue number %d never returned; the reading subscriber received %d events; another controller's GET: %v", made+1, got, aerr))
+	}
+	c.Count(id, true, "stream:stalled-subscriber", fmt.Sprintf("stalled-subscriber:blocked=%v", blocked))
 }
